@@ -43,4 +43,23 @@ __CPROVER_requires(__CPROVER_is_fresh(self, sizeof(*self)))
 __CPROVER_assigns()
 __CPROVER_ensures(__CPROVER_return_value == (g_count > 0 ? (unsigned long)g_count : 0UL))
 ;
+/* ---- PageHeap: the same accounting around its own cached allocator (group c17_pages proves that allocator's contracts) */
+struct CachedPageAllocator *g_ca_self;
+void CachedPageAllocator_allocate(struct CachedPageAllocator *self, void **pages, unsigned long num) { g_up_calls++; g_up_kind = 5; g_ca_self = self; g_up_pages = pages; g_up_num = num; }
+void CachedPageAllocator_deallocate(struct CachedPageAllocator *self, void **pages, unsigned long num) { g_up_calls++; g_up_kind = 6; g_ca_self = self; g_up_pages = pages; g_up_num = num; }
+void PageHeap_allocate(struct PageHeap *self, void **pages, unsigned long num)
+__CPROVER_requires(CPA_PRE(self) && num < (1UL << 62))
+__CPROVER_assigns(CPA_FRAME, g_ca_self)
+__CPROVER_ensures(g_count == __CPROVER_old(g_count) + (long)num && g_up_calls == 1 && g_up_kind == 5 && g_ca_self == &self->_cached_allocator && g_up_pages == pages && g_up_num == num)
+;
+void PageHeap_deallocate(struct PageHeap *self, void **pages, unsigned long num)
+__CPROVER_requires(CPA_PRE(self) && num < (1UL << 62))
+__CPROVER_assigns(CPA_FRAME, g_ca_self)
+__CPROVER_ensures(g_count == __CPROVER_old(g_count) - (long)num && g_up_calls == 1 && g_up_kind == 6 && g_ca_self == &self->_cached_allocator && g_up_pages == pages && g_up_num == num)
+;
+size_t PageHeap_allocate_page_num(struct PageHeap *self)
+__CPROVER_requires(__CPROVER_is_fresh(self, sizeof(*self)))
+__CPROVER_assigns()
+__CPROVER_ensures(__CPROVER_return_value == (g_count > 0 ? (unsigned long)g_count : 0UL))
+;
 #endif
